@@ -179,7 +179,13 @@ class Ctx:
             shutil.copy(REPO / "go.sum", self.scratch / "alt.sum")
             cmd += ["-modfile", str(mf)]
         else:
-            shutil.copy(REPO / "go.sum", h / "go.sum")
+            # Checks may run side by side: never truncate a go.sum another build is reading.
+            want = (REPO / "go.sum").read_bytes()
+            have = (h / "go.sum").read_bytes() if (h / "go.sum").exists() else None
+            if have is None or not set(want.splitlines()) <= set(have.splitlines()):
+                tmp = h / (".go.sum.%d" % os.getpid())
+                tmp.write_bytes(want)
+                os.replace(tmp, h / "go.sum")
         # One binary per property: ./cmd/vhNN imports only internal/cNN (and what it imports).
         # C07 -> ./cmd/vh07; extra (non-manifest) checks X03 -> ./cmd/vhx03.
         target = "./cmd/vh" + (self.prop[1:] if self.prop.startswith("C") else self.prop).lower()
